@@ -15,6 +15,7 @@
 #include <string.h>
 #include <unistd.h>
 #include <fcntl.h>
+#include <signal.h>
 #include <grp.h>
 #include <time.h>
 #include <sys/types.h>
@@ -62,5 +63,27 @@ int main(int argc, char **argv)
   if (write(fd, buf, n) != (ssize_t) n) fail();
   close(fd);
   if (rename(tmp, path) == -1) fail();
+  {
+    /* scripted behaviour per recipient (C18: what qmail-lspawn makes of arbitrary program output): the file
+     * $VERIF_LOCAL_SCRIPT_DIR/<local part (argv[4])> holds "exit <n>\n" or "signal <n>\n" followed by the raw bytes to write
+     * to descriptor 1 */
+    const char *sd = getenv("VERIF_LOCAL_SCRIPT_DIR");
+    if (sd && argc > 4) {
+      static char sb[70000]; char sp[4200]; ssize_t r, k = 0; char *nl; int sfd;
+      snprintf(sp, sizeof sp, "%s/%s", sd, argv[4]);
+      sfd = open(sp, O_RDONLY);
+      if (sfd != -1) {
+        while ((r = read(sfd, sb + k, sizeof sb - 1 - k)) > 0) k += r;
+        close(sfd);
+        sb[k] = 0;
+        nl = memchr(sb, '\n', k);
+        if (!nl) fail();
+        if (k - (nl + 1 - sb) > 0 && write(1, nl + 1, k - (nl + 1 - sb)) < 0) fail();
+        if (!strncmp(sb, "signal ", 7)) { kill(getpid(), atoi(sb + 7)); pause(); }
+        if (!strncmp(sb, "exit ", 5)) _exit(atoi(sb + 5));
+        fail();
+      }
+    }
+  }
   _exit(code);
 }
